@@ -34,11 +34,11 @@ func atomicScenarios(thorough bool) []string {
 	}
 	readers := []string{
 		"burst:t",
-		"Partitions:t+Leader:t:0",
-		"Leader:t:0+Partitions:t",
-		"WritablePartitions:t;Leader:t:2",
-		"burst:t;burst:t",
-		"Partitions:t+WritablePartitions:t+Leader:t:1;Brokers+Controller",
+		"Partitions:t~Leader:t:0",
+		"Leader:t:0~Partitions:t",
+		"WritablePartitions:t/Leader:t:2",
+		"burst:t/burst:t",
+		"Partitions:t~WritablePartitions:t~Leader:t:1/Brokers~Controller",
 	}
 	var l []string
 	for _, ch := range changes {
@@ -49,28 +49,68 @@ func atomicScenarios(thorough bool) []string {
 	return l
 }
 
+type atomSc struct {
+	name  string
+	bound int
+}
+
+func lockScenarios(thorough bool) []atomSc {
+	// lock granularity: every acquisition of client.lock by a reader or the refresher is a gate;
+	// default = run each call to completion, a deviation = a preemption at a lock acquisition
+	changes := []struct {
+		from, to int
+		ref      string
+	}{{1, 2, "t"}, {1, 2, "all"}, {0, 7, "all"}}
+	if thorough {
+		changes = append(changes, []struct {
+			from, to int
+			ref      string
+		}{{0, 10, "all"}, {0, 4, "t"}, {0, 12, "all"}, {0, 6, "t"}}...)
+	}
+	readers := []string{
+		"Leader:t:0~Partitions:t",
+		"Partitions:t~Leader:t:0",
+		"WritablePartitions:t~Leader:t:0~Partitions:t",
+		"Leader:t:0~WritablePartitions:t/Partitions:t",
+		"Brokers~Leader:t:1~Brokers",
+	}
+	b := 2
+	if thorough {
+		b = 3
+		readers = append(readers, "burst:t")
+	}
+	var l []atomSc
+	for _, ch := range changes {
+		for _, rd := range readers {
+			l = append(l, atomSc{fmt.Sprintf("cli?locks=1&from=%d&to=%d&ref=%s&readers=%s", ch.from, ch.to, ch.ref, rd), b})
+		}
+	}
+	return l
+}
+
 func atomicLayer(t *testing.T, c *ev.Check, thorough bool, end time.Time) (atomStats, bool) {
 	t0 := time.Now()
 	e := gx.NewExplorer(c)
 	defer e.Close()
 	e.Accept = func(v ev.Violation) bool { return v.Property == "C15" }
-	scs := atomicScenarios(thorough)
 	bound := 4
 	if thorough {
 		bound = 6
 	}
+	var scs []atomSc
+	for _, s := range atomicScenarios(thorough) {
+		scs = append(scs, atomSc{s, bound})
+	}
+	lsc := lockScenarios(thorough)
+	scs = append(scs, lsc...)
 	all := true
 	var cut []string
-	for i, s := range scs {
-		left := time.Until(end)
-		if left < 0 {
-			left = 0
-		}
-		e.Deadline = time.Now().Add(left / time.Duration(len(scs)-i))
-		done, ok := e.Explore(s, bound)
+	e.Deadline = end
+	for _, s := range scs {
+		done, ok := e.Explore(s.name, s.bound)
 		if !ok {
 			all = false
-			cut = append(cut, fmt.Sprintf("%s: completed bound %d of %d", s, done, bound))
+			cut = append(cut, fmt.Sprintf("%s: completed bound %d of %d", s.name, done, s.bound))
 		}
 	}
 	e.Summarize(all)
@@ -79,8 +119,8 @@ func atomicLayer(t *testing.T, c *ev.Check, thorough bool, end time.Time) (atomS
 		st.states = v
 	}
 	// move the explorer's generic keys under "atomicity" (the top-level keys describe the whole check)
-	info := map[string]interface{}{"scenarios": len(scs), "deviation_bound": bound, "wall_s": time.Since(t0).Seconds(),
-		"bound_rule": "deviation = choosing a non-first enabled actor (sticky postponement); default order: switch, refresh, reader steps, answers; all executions with ≤ B deviations"}
+	info := map[string]interface{}{"scenarios_at_quiescent_points": len(scs) - len(lsc), "deviation_bound": bound, "scenarios_at_lock_granularity": len(lsc), "preemption_bound_lock_granularity": lsc[0].bound, "wall_s": time.Since(t0).Seconds(),
+		"bound_rule": "deviation = choosing a non-first enabled actor (sticky postponement); quiescent-point scenarios: default order switch, refresh, reader steps, answers; lock-granularity scenarios (locks=1): every acquisition of client.lock by a reader or the refresher is a gate, default = the running call continues (run to completion), a deviation = a preemption at a lock acquisition or another reordering; all executions with ≤ B deviations"}
 	for _, k := range []string{"states", "transitions", "executions", "replayed_twice_for_determinism", "distinct_terminal_observations", "leaked_runs_info", "max_enabled", "exhaustive", "scenarios", "exercised", "observation_samples", "gate_site_hits", "traces_validated_against_impl"} {
 		if v, ok := c.Coverage[k]; ok {
 			if k == "scenarios" {
@@ -95,6 +135,6 @@ func atomicLayer(t *testing.T, c *ev.Check, thorough bool, end time.Time) (atomS
 		info["cut_by_internal_deadline"] = cut
 	}
 	c.Set("atomicity", info)
-	fmt.Printf("  atomicity: %d scenarios, bound %d, %d executions, exhaustive=%v, %.1fs\n", len(scs), bound, e.Execs, all, time.Since(t0).Seconds())
+	fmt.Printf("  atomicity: %d scenarios (%d at lock granularity), %d executions, exhaustive=%v, %.1fs\n", len(scs), len(lsc), e.Execs, all, time.Since(t0).Seconds())
 	return st, all
 }
